@@ -488,4 +488,33 @@ theorem applyString_lig (l : Lookup) (hall : l.subtables.all Subtable.isLigature
     rw [hout0, hin0, List.nil_append]
     rfl
 
+/-! ### decidable forms of the hypotheses (for the non-vacuity examples) -/
+
+instance (x : Info) : Decidable (Plain x) := by unfold Plain; exact inferInstance
+instance (x : Info) : Decidable (FeatMask x) := by unfold FeatMask; exact inferInstance
+
+theorem nonDecr_of_pairwise (L : List Info) (h : (L.map (·.cluster)).Pairwise (· ≤ ·)) : NonDecr L := by
+  intro i j a b hij ha hb
+  have hi := cl?_some_lt ha
+  have hj := cl?_some_lt hb
+  rw [cl?_lt hi] at ha
+  rw [cl?_lt hj] at hb
+  cases ha; cases hb
+  by_cases hije : i = j
+  · subst hije; exact Nat.le_refl _
+  · have := List.pairwise_iff_getElem.1 h i j (by simpa using hi) (by simpa using hj) (by omega)
+    simpa using this
+
+theorem nonIncr_of_pairwise (L : List Info) (h : (L.map (·.cluster)).Pairwise (· ≥ ·)) : NonIncr L := by
+  intro i j a b hij ha hb
+  have hi := cl?_some_lt ha
+  have hj := cl?_some_lt hb
+  rw [cl?_lt hi] at ha
+  rw [cl?_lt hj] at hb
+  cases ha; cases hb
+  by_cases hije : i = j
+  · subst hije; exact Nat.le_refl _
+  · have := List.pairwise_iff_getElem.1 h i j (by simpa using hi) (by simpa using hj) (by omega)
+    simpa using this
+
 end RbModel.Gsub
